@@ -1768,6 +1768,9 @@ class unyt_array(np.ndarray):
         if getattr(ret, "shape", None) == ():
             ret = unyt_quantity(ret, bypass_validation=True, name=self.name)
             ret.units = self.units
+        elif isinstance(ret, unyt_quantity):
+            # q[None], q[..., None], q[True]: a shaped result is an array
+            ret = ret.view(unyt_array)
         return ret
 
     def __setitem__(self, item, value):
